@@ -95,6 +95,20 @@ def judge(pre, op, post, res, obs, meta):
                 if not on_the_way:
                     V("create-sf-generation-in-unrelated-history", f"{ops.label(op)}: history '{h}' received a generation although none of the "
                       f"named entries {o['sf']} lies in it")
+        # whatever happens to the run: a history receives at most one manifest, and a manifest that is there is listed in its chain
+        for folder in sorted(got_manifest):
+            newm = sorted(p for p, w in diffs if w == "created" and p.startswith(folder + "/") and p.endswith(".mhl"))
+            if len(newm) > 1:
+                V("create-several-manifests-in-one-history", f"{ops.label(op)} (exit {res.exit}): {len(newm)} new manifests in {folder[5:]}: "
+                  f"{[m.split('/')[-1] for m in newm]}")
+            chain = post.get((folder[5:] + "/ascmhl_chain.xml").lstrip("/")) if folder != "root/ascmhl" else post.get("ascmhl/ascmhl_chain.xml")
+            try:
+                listed = {e["path"] for e in ref.read_chain(chain)} if chain is not None else set()
+            except Exception:
+                listed = set()
+            for m in newm:
+                if m.split("/")[-1] not in listed:
+                    V("create-manifest-not-chained", f"{ops.label(op)} (exit {res.exit}): {m[5:]} is not listed in the chain file of its history")
         for p in sorted(created_ascmhl):
             # a run at R creates the history of R when there is none; it never founds a history anywhere else
             if p != ("root/" + R + "/ascmhl" if R else "root/ascmhl"):
@@ -113,6 +127,10 @@ def judge(pre, op, post, res, obs, meta):
                 folder = "root/" + "/".join(parts[:i + 1])
                 if not in_scope:
                     V("create-out-of-scope-history", f"{ops.label(op)}: {rel} {w} (history outside the command's root)", what=w)
+                elif folder not in got_manifest and res.exc is not None and res.exc.split(":")[0] in ("OSError", "FileNotFoundError", "PermissionError") \
+                        and folder not in obs["meta_pre"] and tail in ([], ["ascmhl_chain.xml"]) and w == "created":
+                    pass   # the operating system refused a file of this run: a new, still empty history folder is what a first run that
+                    # did not get through leaves behind ("no history yet")
                 elif folder not in got_manifest:
                     V("create-touched-history-without-generation", f"{ops.label(op)}: {rel} {w} although this history received no "
                       f"new generation in this run", what=w, sf=bool(o.get("sf")))
@@ -217,7 +235,16 @@ def states(ctx):
     ign = ops.build(ctx, T, [c("d", ["md5"]), c("", ["xxh64"], i=["d/"])], expect=[0, 0])
     if ign is not None:
         S["nested-excluded+new-file"] = ops.edit(ign, ["write", "fresh.bin", b"new file"])
+    # a folder whose name is too long for a manifest named after it (the operating system refuses the file name): a create there
+    # fails - what it did before failing stays within the rules (here: the nested history below it is written first)
+    lng = ops.build(ctx, dict(T, **{LONGNAME: DIR, LONGNAME + "/card": DIR, LONGNAME + "/card/f.txt": b"content of f"}),
+                    [c(LONGNAME + "/card", ["md5"])], expect=[0])
+    if lng is not None:
+        S["nested-below-overlong-name"] = lng
     return S
+
+
+LONGNAME = "N" * 240
 
 
 def command_forms(tree):
@@ -238,6 +265,8 @@ def command_forms(tree):
          c("", ["xxh64"]), c("", ["xxh64"], v=True), c("", ["xxh64"], sf=["a.txt"], v=True), c("", ["md5", "c4"], n=True), c("", ["xxh64"], dr=True), c("", ["xxh64"], i=["*.txt"]),
          c("", ["xxh64"], sf=["a.txt"]), c("", ["xxh64"], sf=["d/c.txt"]), c("", ["xxh64"], sf=["d"]), c("d", ["sha1"]),
          c("d/e", ["xxh3"]), c("emp", ["xxh64"]), c("", ["xxh64"], extra=["--author_name", "X", "--comment", "c"])]
+    if LONGNAME in tree:
+        f += [c(LONGNAME, ["md5"]), c(LONGNAME, ["md5"], n=True), c("", ["md5"], sf=[LONGNAME + "/card/f.txt"]), ["verify", {"root": LONGNAME}]]
     pl = [["verify", {"root": "", "pl": "{pl}"}], ["verify", {"root": "", "pl": "{pl}", "sf": "a.txt"}]]
     for m in mans[:2]:
         f.append(["xsd-schema-check", {"file": m, "xsd": "/repo/xsd/ASCMHL.xsd"}])
